@@ -134,6 +134,7 @@ type Ctx struct {
 	Deadline time.Time
 	Status   *os.File
 	n        int
+	chk      int
 	res      Result
 	group    string
 	stop     bool
@@ -171,7 +172,10 @@ func (c *Ctx) capped() bool {
 	if c.stop {
 		return true
 	}
-	if !c.Deadline.IsZero() && c.n%64 == 0 && time.Now().After(c.Deadline) {
+	// (counted in this worker's OWN cases: with cases dealt out by index, c.n at a worker's own cases is always congruent to its shard
+	// number, so "every 64th value of c.n" was reached by one worker in sixteen only)
+	c.chk++
+	if !c.Deadline.IsZero() && c.chk%64 == 0 && time.Now().After(c.Deadline) {
 		c.stop = true
 		c.res.Capped = true
 	}
